@@ -7,6 +7,9 @@ ID = "C24"
 DRIVER = "drv_C24"
 THEOREM_MODS = ["RsassModel.Theorems.C24"]
 LEVEL = "proof"
+EXTRA_OBLIGATIONS = ["guard: selector.nest folds b.nest(e, &b)", "guard: selector.append folds base.append(&s)",
+                     "guard: SelectorCtx::nest = self.s.nest(selectors, get_backref())",
+                     "guard: resolve_ref appends with CompoundSelector::append"]
 RULE = ("cases = one SCSS stylesheet per case (generic compile op) calling selector.unify / extend / replace / nest / "
         "append on generated selector lists (as for C23) and, in the same stylesheet, evaluating the law on the "
         "implementation itself: unify -> is-superselector(a, c) and (b, c) for every complex selector c of the result; "
@@ -16,8 +19,11 @@ RULE = ("cases = one SCSS stylesheet per case (generic compile op) calling selec
         "objects go to the model as terms; non-trivial = the function returned a selector (not null / error)")
 TRUSTED = ["props/selgen.py prints the same selector as text and as a model term",
            "Sel/Nest.lean, Sel/Print.lean, Sel/Syntax.lean (C19/C25 family) for nesting, compound append and printing"]
-ASSUMPTIONS = ["unify law: pairs in which exactly one side carries a pseudo-element are excluded from the law (the "
-               "result then has a pseudo-element the other input lacks and Sass's own is-superselector answers false)",
+ASSUMPTIONS = ["unify law: when exactly one side carries a pseudo-element only that side is required to be a superselector "
+               "of the result (the result has a pseudo-element the other input lacks and Sass's own is-superselector answers "
+               "false); for lists of complex selectors such pairs are excluded",
+               "static guards (4): selector.nest / selector.append / SelectorCtx::nest / resolve_ref still call the functions "
+               "the nest/append theorems equate",
                "replace law: 'x matches none of s' is realised by drawing x from a vocabulary disjoint from s, so "
                "that nothing matches at any nesting level (replace also rewrites inside :is()/:not()/… arguments)",
                "append law: b is one simple selector (class, id, attribute, pseudo-class or a name suffix)"]
@@ -218,7 +224,8 @@ def gen(tier, rng, boost=1):
         if k < 0.16:
             a = [G.Sel([small_comp(rng, q)])]
             b = [G.Sel([small_comp(rng, q)])]
-            law = "law" if has_pe(a) == has_pe(b) else "none"
+            # one-sided pseudo-element: only the side that carries it must stay a superselector
+            law = "law" if has_pe(a) == has_pe(b) else ("lawa" if has_pe(a) else "lawb")
             yield Case(line_unify(a, b, law), "unify-compound")
         elif k < 0.34:
             a, b = small_set(rng, q), small_set(rng, q)
@@ -325,8 +332,8 @@ def judge(case, impl, asis, spec):
             STATS["errors"] += 1
         elif op == "unify" and r not in (None, "null"):
             STATS["unify_results"] += 1
-            if law == "law":
-                bits = d["ra"] + d["rb"]
+            if law.startswith("law"):
+                bits = d["ra"] + d["rb"] if law == "law" else d["ra"] if law == "lawa" else d["rb"]
                 STATS["unify_law_bits"] += len(bits)
                 STATS["unify_law_bits_false"] += bits.count("false")
         elif op == "extend" and r and d.get("p") and len(split_top(r)) > len(split_top(d["p"])):
@@ -365,8 +372,9 @@ def judge0(case, impl, asis, spec):
         bits = "".join(("t" if x == "true" else "f") + ("t" if y == "true" else "f") for x, y in zip(d["ra"], d["rb"]))
         # the law bits are observed through the printed result (`"#{$c}"`): printing drops a hidden
         # `*`, which `:current(..)`'s `==` notices; they are compared in the law strata only (no `:current`)
-        corr = d["res"] == model_text(mres) and (bits == mbits or law != "law")
-        if law == "law" and "f" in bits:
+        corr = d["res"] == model_text(mres) and (bits == mbits or not law.startswith("law"))
+        checked = bits if law == "law" else bits[0::2] if law == "lawa" else bits[1::2] if law == "lawb" else ""
+        if "f" in checked:
             why = "an input of selector.unify is not a superselector of a complex selector of the result"
         return Verdict(corr, why)
     corr = d["res"] == model_text(asis or "")
